@@ -69,7 +69,9 @@ def apply(op, args, p, np=numpy):
     if op == 'broadcast_to': return numpy.broadcast_to(a, p['shape'])
     if op == 'choose': return numpy.choose(numpy.mod(a, 2), [b, args[2]])
     if op == 'einsum': return numpy.einsum(p['fmt'], *args)
-    if op == 'searchsorted': return numpy.searchsorted(numpy.array(p['table']), a)
+    if op == 'searchsorted': return numpy.searchsorted(numpy.array(p['table'], dtype=int), a)
+    if op == 'minimum_c': return numpy.minimum(a, p['c'])
+    if op == 'mod_c': return numpy.mod(a, p['c'] + 1)
     if op == 'interp': return numpy.interp(a, numpy.array(p['xp']), numpy.array(p['fp']))
     if op == 'astype_f': return a * 1.0
     if op == 'compress': return numpy.compress(numpy.array(p['mask']), a, axis=p['axis'])
@@ -91,7 +93,7 @@ UNARY_F = ['negative', 'positive', 'absolute', 'square', 'sin', 'cos', 'arctan',
 BINARY = ['add', 'subtract', 'multiply', 'divide_s', 'hypot', 'arctan2', 'minimum', 'maximum', 'op_add', 'op_mul', 'op_sub', 'add', 'multiply']
 EXACT_PRESERVING = {'negative', 'positive', 'absolute', 'square', 'add', 'subtract', 'multiply', 'op_add', 'op_mul', 'op_sub', 'op_rsub', 'minimum', 'maximum', 'sum', 'prod', 'max', 'min', 'transpose', 'T', 'swapaxes', 'reshape',
                     'ravel', 'trace', 'diagonal', 'repeat', 'take', 'getitem', 'concatenate', 'stack', 'broadcast_to', 'choose', 'real', 'imag', 'conjugate', 'matmul', 'dot', 'op_matmul', 'einsum', 'power_i', 'op_pow', 'cross',
-                    'floor_divide_s', 'mod_s', 'sign', 'greater', 'less', 'equal', 'logical_and', 'logical_or', 'logical_not', 'any', 'all', 'searchsorted', 'compress', 'vdot'}
+                    'floor_divide_s', 'mod_s', 'sign', 'greater', 'less', 'equal', 'logical_and', 'logical_or', 'logical_not', 'any', 'all', 'searchsorted', 'compress', 'vdot', 'minimum_c', 'mod_c'}
 
 
 class Gen:
@@ -228,7 +230,15 @@ class Gen:
             a, b = self.pick(lambda v, e: v.ndim >= 1 and v.dtype.kind in 'ifc'), self.pick(lambda v, e: v.ndim >= 1 and v.dtype.kind in 'ifc')
             if a is None or b is None: return
             va, vb = self.pool[a][0], self.pool[b][0]
-            if op == 'einsum':
+            if op == 'einsum' and self.integer(0, 2) == 0:
+                # ellipses in both operands, of different rank where the pool allows it: NumPy aligns the broadcast axes to the right
+                fmt = self.choice(['...i,...i->...', '...i,...i->...i', '...i,...j->...ij', 'i...,i...->...', '...,...->...', '...i,i->...'])
+                a3 = self.pick(lambda v, e: v.ndim >= 3 and v.dtype.kind in 'ifc')
+                if a3 is not None and self.integer(0, 2): a = a3      # two or more broadcast axes in the first operand, fewer in the second
+                for pair in ([a, b], [b, a]):
+                    if self.pool[pair[0]][0].ndim != self.pool[pair[1]][0].ndim or self.integer(0, 1):
+                        if self.try_add('einsum', pair, dict(fmt=fmt)): self.features.add('einsum-ellipsis'); break
+            elif op == 'einsum':
                 if va.ndim == 2 and vb.ndim >= 1 and va.shape[1] == vb.shape[0]:
                     fmt = self.choice(['ij,j...->i...', 'ij,jk->ki', 'ij,j->ij'] if vb.ndim == 2 else ['ij,j->i', 'ij,j->ji', 'ij,j->'])
                     self.try_add('einsum', [a, b], dict(fmt=fmt))
@@ -265,7 +275,10 @@ class Gen:
             elif op in ('power_i', 'op_pow'):
                 self.try_add(op, [a], dict(e=self.choice([0, 1, 2, 3])))
             elif op == 'searchsorted':
-                self.try_add('searchsorted', [a], dict(table=[-2, 0, 1, 3]))
+                table = self.choice([[-2, 0, 1, 3], [0], [-1, 1], []])
+                if self.try_add('searchsorted', [a], dict(table=table)) and self.integer(0, 1):
+                    c = len(self.pool) - 1
+                    self.try_add(self.choice(['minimum_c', 'mod_c']), [c], dict(c=max(len(table) - 1, 0) if self.integer(0, 1) else len(table)))
             elif op == 'choose':
                 x, y = self.pick(lambda v, e: v.dtype.kind in 'ifc'), self.pick(lambda v, e: v.dtype.kind in 'ifc')
                 if x is not None and y is not None: self.try_add('choose', [a, x, y], {})
@@ -304,7 +317,7 @@ def leaf_specs(draw, nargs=2):
     leaves = []
     for k in range(draw(st.integers(2, 4))):
         kind = draw(st.sampled_from(['f', 'f', 'i', 'c', 'b']))
-        shape = draw(st.sampled_from([[], [2], [3], [2, 3], [3, 3], [1, 3], [2, 1], [2, 2]]))
+        shape = draw(st.sampled_from([[], [2], [3], [2, 3], [3, 3], [1, 3], [2, 1], [2, 2], [2, 2, 3], [3, 2, 3]]))
         n = int(numpy.prod(shape)) if shape else 1
         if kind == 'b': vals = [draw(st.booleans()) for _ in range(n)]
         elif kind == 'i': vals = [draw(st.sampled_from(IV)) for _ in range(n)]
